@@ -26,7 +26,7 @@ def show_note(d):
     return "p%d %d/%d c%d %s%s" % (d["p"], d["n"], d["d"], d["c"], chr(d["t"]), "" if d["k"] < 0 else "[%d]" % d["k"])
 
 
-ROWS = [1, 2, 3, 4, 4, 4, 5, 8, 8, 12, 16, 16, 24, 32, 48, 64, 192]
+ROWS = [1, 2, 3, 4, 4, 4, 5, 8, 8, 12, 16, 16, 24, 32, 48, 64, 192, 256, 384]
 
 
 def gen_text(rng, max_chars=3500):
